@@ -132,6 +132,8 @@ strdup_hook(void * p, size_t n)
 		secret_blocks[nsecret_blocks].p = p; secret_blocks[nsecret_blocks].n = n; nsecret_blocks++;
 	}
 }
+/* an object that must be wiped as a whole when it is released (AES-CTR stream objects: counter block, buffered cipherstream) */
+static void * wiped_expect;
 static void
 free_hook(void * p, size_t n)
 {
@@ -139,6 +141,15 @@ free_hook(void * p, size_t n)
 	size_t j;
 
 	scan_region(p, n);
+	if (p == wiped_expect) {
+		for (j = 0; j < n; j++)
+			if (((uint8_t *)p)[j] != 0) {
+				tainted_frees++;
+				snprintf(tainted_what, sizeof(tainted_what), "stream object released without being wiped (non-zero byte at offset %zu of %zu)", j, n);
+				break;
+			}
+		wiped_expect = NULL;
+	}
 	for (i = 0; i < nsecret_blocks; i++)
 		if (secret_blocks[i].p == p) {
 			for (j = 0; j < n; j++)
@@ -476,7 +487,9 @@ do_ctr(char * l)
 		if (*p == ',') p++;
 	}
 	fprintf(vt_out, "]");
+	wiped_expect = s;
 	crypto_aesctr_free(s);
+	wiped_expect = NULL;
 	crypto_aes_key_free(k);
 	vt_int("len", (long long)off);
 	if (!pattern && off <= 600) { vt_str("msg", strcmp(data, "-") ? data : ""); vt_hex("out", o, off); }
